@@ -68,8 +68,14 @@ func Shrink(raw json.RawMessage) []json.RawMessage {
 			emit(func(c *Scenario) bool { c.Runs = append(c.Runs[:i], c.Runs[i+1:]...); return true })
 		}
 	}
+	if sc.SharedPacker {
+		emit(func(c *Scenario) bool { c.SharedPacker = false; return true })
+	}
+	if len(sc.Others) > 0 {
+		emit(func(c *Scenario) bool { c.Others = nil; return true })
+	}
 	if sc.Conc {
-		emit(func(c *Scenario) bool { c.Conc = false; c.Chdirs = nil; return true })
+		emit(func(c *Scenario) bool { c.Conc = false; c.Chdirs = nil; c.Others = nil; return true })
 		if len(sc.Chdirs) > 0 {
 			emit(func(c *Scenario) bool { c.Chdirs = nil; return true })
 		}
